@@ -4,6 +4,7 @@ import (
 	"fmt"
 	"go/ast"
 	"go/constant"
+	"go/token"
 	"sort"
 	"strings"
 
@@ -20,15 +21,15 @@ func init() {
 var rawAllowed = map[string]map[string]string{
 	"json": {
 		"const": "literal text of the encoder", "num": "strconv output", "time": "time.AppendFormat output", "quoted": "strconv.Quote output",
-		"marshaller": "output of a user-supplied MarshalJSON/MarshalText (outside the property's domain)",
+		"marshaller": "output of a user-supplied MarshalJSON, JSON text by that interface's contract (outside the property's domain)",
 	},
 	"logfmt": {
 		"const": "literal text of the encoder", "num": "strconv output", "time": "time.AppendFormat output", "quoted": "strconv.Quote output",
-		"marshaller": "output of a user-supplied marshaller (outside the domain)", "key": "attribute keys are restricted to legal logfmt keys by the property",
+		"marshaller": "output of a user-supplied marshaller (outside the domain)", "text-marshaller": "output of a user-supplied MarshalText (outside the domain)", "key": "attribute keys are restricted to legal logfmt keys by the property",
 	},
 	"colored": {
 		"const": "literal text of the encoder", "num": "strconv output", "time": "time.AppendFormat output", "quoted": "strconv.Quote output",
-		"marshaller": "output of a user-supplied marshaller (outside the domain)", "key": "attribute keys", "message": "the message itself (claimed for messages without escape bytes)",
+		"marshaller": "output of a user-supplied marshaller (outside the domain)", "text-marshaller": "output of a user-supplied MarshalText (outside the domain)", "key": "attribute keys", "message": "the message itself (claimed for messages without escape bytes)",
 		"frame": "hardened source path / function name of the runtime frame", "logger-name": "the logger's name", "level-name": "the level tag",
 	},
 }
@@ -275,7 +276,9 @@ func checkC04(c *Ctx) {
 	r.Rule("R04.4", "object bracketing: the member-list emitter is always called between an opening and a closing brace emitted by the same function in JSON mode (top level and nested groups), and a member separator is not written right after an opening brace")
 	r.Rule("R04.9", "member grammar: in the member-list emitter every mode-feasible path from a member separator to the next element (or out of the function) writes a key, and every path from a key writes a value (the value switch, the timestamp printer or a value stringer), so no element is dropped after its separator")
 	r.Rule("R05.10", "(shared with C05) the message is handed on as given from the verbs to the encoder's message field")
+	r.Rule("R01.1", "(shared with C01) decodes to what was logged, the level included: every verb emits at the severity it gates on (R01.1/R01.2/R01.5: gate and emission agree)")
 	r.Rule("R19.1", "(shared with C19) the record is the bytes the encoder appended: the write side of the formatting buffer (Write*, Grow, Truncate, Reset, Bytes and their helpers) is isomorphic to bytes.Buffer")
+	r.Rule("R15.3", "(shared with C15) attributes arriving through the log/slog handler keep key and value: each kind arm hands on the key and the value read with the accessor of its own kind, groups nested, LogValuers resolved")
 	r.Rule("R15.4", "(shared with C15) every attribute with its own value: handlers derived for log/slog own a fresh copy of the bound field list (siblings do not overwrite each other's attributes)")
 	r.Rule("R02.3", "(shared with C02) every record is one JSON object: the only payload that is not the finished buffer is the blank line of Print/Println, taken exactly for lvl == AlwaysLevel with a blank message")
 	r.Rule("R04.10", "array grammar: in every list writer that separates elements by ',' each function of the package called in the loop that can write to the record writes on every mode-feasible path, so no element is empty")
@@ -316,8 +319,10 @@ func checkC04(c *Ctx) {
 		c04Members(c, p, m, mr)
 		c04Elements(c, p, m, mr)
 		c04BuiltinFirst(c, p, m)
+		c04KeysAsGiven(c, p, m, mr)
+		c01Gates(c, p, m, tags)
 		c19WriteSide(c, p)
-		c15Derived(c, p, m)
+		c15Handler(c, p, m)
 		c02Newline(c, p, m)
 		fixedMemberGrammar(c, p, m, jsonMode, "R05.11")
 		newlineRule(c, p, mr, "R04.5", map[string]string{"PrintCtx.End": "the record terminator of End(true)", "PrintCtx.EndArray": "EndArray(newline) for user marshallers", "Entry.printImpl": "blank-line shortcut"})
@@ -1137,8 +1142,92 @@ func emitAnalysis(p *Prog, mode Mode) (func(fn *ssa.Function) bool, func(fn *ssa
 		}
 		return !silent
 	}
+	emitAtSite = func(cs ssa.CallInstruction) bool {
+		fn := calleeOf(cs)
+		if alwaysEmits(fn) {
+			return true
+		}
+		if fn == nil || len(fn.Blocks) == 0 || fn.Pkg != p.Slog {
+			return false
+		}
+		// what the call site knows about its arguments: a nil constant, or a value tested non-nil on the way
+		known := map[*ssa.Parameter]int{} // 1 = not nil, 2 = nil
+		for i, a := range cs.Common().Args {
+			if i >= len(fn.Params) {
+				break
+			}
+			if isNilConst(strip(a)) {
+				known[fn.Params[i]] = 2
+				continue
+			}
+			for _, g := range guardsOf(cs.Block()) {
+				cond, neg := normCond(g.If.Cond)
+				bo, ok := cond.(*ssa.BinOp)
+				if !ok || !isNilConst(bo.Y) || strip(bo.X) != strip(a) {
+					continue
+				}
+				taken := (g.Succ == 0) != neg
+				if (bo.Op == token.EQL && !taken) || (bo.Op == token.NEQ && taken) {
+					known[fn.Params[i]] = 1
+				}
+			}
+		}
+		if len(known) == 0 {
+			return false
+		}
+		emitsIn := func(b *ssa.BasicBlock) bool {
+			for _, in := range b.Instrs {
+				if bufStore(in) {
+					return true
+				}
+				if c2, ok := in.(ssa.CallInstruction); ok && alwaysEmits(calleeOf(c2)) {
+					return true
+				}
+			}
+			return false
+		}
+		seen := map[*ssa.BasicBlock]bool{}
+		silent := false
+		var dfs func(b *ssa.BasicBlock)
+		dfs = func(b *ssa.BasicBlock) {
+			if silent || seen[b] {
+				return
+			}
+			seen[b] = true
+			if emitsIn(b) {
+				return
+			}
+			if _, ok := b.Instrs[len(b.Instrs)-1].(*ssa.Return); ok {
+				silent = true
+				return
+			}
+			succs := feasibleSuccs(b, mr.Mode)
+			if iff := ifOf(b); iff != nil && len(succs) == 2 {
+				cond, neg := normCond(iff.Cond)
+				if bo, ok := cond.(*ssa.BinOp); ok && isNilConst(bo.Y) && (bo.Op == token.EQL || bo.Op == token.NEQ) {
+					if prm, ok := strip(bo.X).(*ssa.Parameter); ok && known[prm] != 0 {
+						isNil := known[prm] == 2
+						val := (bo.Op == token.EQL) == isNil
+						if val != neg {
+							succs = b.Succs[:1]
+						} else {
+							succs = b.Succs[1:2]
+						}
+					}
+				}
+			}
+			for _, sx := range succs {
+				dfs(sx)
+			}
+		}
+		dfs(fn.Blocks[0])
+		return !silent
+	}
 	return mayEmit, alwaysEmits
 }
+
+// emitAtSite: set by the last emitAnalysis: must-emit of a callee given what its call site knows about the arguments.
+var emitAtSite func(cs ssa.CallInstruction) bool
 
 func c04Elements(c *Ctx, p *Prog, m *Model, mr *ModeReach) {
 	r := c.R
@@ -1159,7 +1248,7 @@ func c04Elements(c *Ctx, p *Prog, m *Model, mr *ModeReach) {
 			if cal == nil || cal.Pkg != p.Slog || !mayEmit(cal) {
 				continue
 			}
-			if !alwaysEmits(cal) {
+			if !alwaysEmits(cal) && !emitAtSite(cs) {
 				probs = append(probs, fmt.Sprintf("%s (called at %s) can return without having written anything", shortName(cal), p.Pos(instrPos(cs))))
 			}
 		}
@@ -1251,4 +1340,27 @@ func c04BuiltinFirst(c *Ctx, p *Prog, m *Model) {
 		}
 	}
 	r.Check(len(probs) == 0, "R04.11", "builtin-first", p.FuncPos(av), fmt.Sprintf("user marshallers are consulted only after the built-in arms missed (%d site(s))", n), strings.Join(probs, "; ")+": time.Time implements json.Marshaler and its MarshalJSON fails outside years 0..9999, so such a time is written as nothing after its key")
+}
+
+// c04KeysAsGiven: in JSON mode a member is printed under its own key: nesting is expressed by the enclosing object,
+// so no JSON-feasible block of the print tree forms a dotted key (DotPrefix is reached only on text-mode paths).
+func c04KeysAsGiven(c *Ctx, p *Prog, m *Model, mr *ModeReach) {
+	r := c.R
+	var hits []string
+	nCalls := 0
+	for fn, blocks := range mr.Blocks {
+		for _, cs := range callsIn(fn) {
+			cal := calleeOf(cs)
+			if cal == nil || nm(cal) != "DotPrefix" {
+				continue
+			}
+			nCalls++
+			if blocks[cs.Block()] {
+				hits = append(hits, shortName(fn)+" at "+p.Pos(instrPos(cs)))
+			}
+		}
+	}
+	sort.Strings(hits)
+	r.Check(len(hits) == 0, "R04.6", "keys-as-given[json]", "-", fmt.Sprintf("none of the %d dotted-key sites is feasible in JSON mode", nCalls),
+		"in JSON mode a member key is formed with DotPrefix ("+strings.Join(hits, "; ")+"): members of a group come out as \"g.a\" inside the object \"g\", so they do not decode under the key they were logged with")
 }
